@@ -407,3 +407,10 @@ def run(chk):
     r5.require(strip(a) == strip(b), "pipeline|scoring(evaluate_hdd_tidd_cdd_smooth)~read-back(OptimizedResult.eval)", sc.where(),
                f"the optimiser scores the curve {a} (smoothing applied to the raw, possibly crossed, balance points; ordering only inside the kernel) but the stored coefficients are evaluated as {b} "
                f"(ordering first, then smoothing): for a vector with hdd_bp > cdd_bp the stored curve is not the curve that was scored", sample={"scoring": a, "read_back": b})
+
+    # ------------------------------------------------------------------ R12.6 (shared with C11/R11.4 and C01/R01.9)
+    # The read-back wrappers (fix_full_model_x / get_full_model_x) and the scorer's kernel (full_model) must apply the *same*
+    # reordering: balance points, slopes and smoothing swapped together, same sign convention and clamps.
+    r6 = chk.rule("R12.6", "the kept coefficients are turned into a curve by wrappers that reorder exactly like the scoring kernel (all three pairs swapped together, same clamps)", 6)
+    from rules.c11 import check_kernel_wrappers
+    check_kernel_wrappers(chk, r6)
